@@ -351,3 +351,38 @@ Definition run_C01_byname (p : str) (xs : list input_seq) : val :=
       VL [VS (ext_of p); show_name (detect_ext p);
           show_res (bind (write_byname p (build xs)) (fun c =>
                     Ok (VL [VS (content_text c); show_read (read_auto c)])))]].
+
+(* ---------------------------------------------------------------- BioSeq(data, id='', meta=None, type=None), seq.py:213-243 *)
+(* data: a str, or an object with a .meta attribute (a BioSeq); mappings with a 'meta' key are not modelled *)
+Inductive bdata :=
+| DStr (s : str)
+| DSeq (b : bseq).
+Definition truthy (o : option str) : bool := match o with Some (_ :: _) => true | _ => false end.
+(* [id]: None = Python None, Some "" = the default; [meta]: None = not given, Some m = a mapping whose 'id' entry is m
+   (None = no such key, Some None = None, Some (Some s) = s); [ty]: None = not given *)
+Definition bioseq_init (d : bdata) (id : option str) (meta : option (option (option str))) (ty : option str) : res bseq :=
+  let data := upper (match d with DStr s => s | DSeq b => b_data b end) in                 (* str(data).upper() *)
+  let mid : option (option str) :=                                                         (* the mapping Meta() is built from *)
+    match d with
+    | DSeq b => Some (b_id b)                                                              (* hasattr(data, 'meta') *)
+    | DStr _ => match meta with Some m => m | None => None end
+    end in
+  let id' := if truthy id || negb (is_some mid) then id                                     (* if id or 'id' not in self.meta *)
+             else match mid with Some x => x | None => None end in
+  let hdr := match d with DSeq b => b_header b | DStr _ => None end in
+  let fm := match d with DSeq b => b_fmt b | DStr _ => None end in
+  match ty with
+  | None => Ok (mk_bseq data id' (infer_nt data) hdr fm)
+  | Some t => if str_eqb t (bs "nt"%bs) then Ok (mk_bseq data id' true hdr fm)
+              else if str_eqb t (bs "aa"%bs) then Ok (mk_bseq data id' false hdr fm)
+              else Err E_Assertion                                                          (* assert type in (None, 'nt', 'aa') *)
+  end.
+(* harness: the source object is BioSeq(sdata, id=sid, type=sty) with an optional _fasta.header when from_seq, else the str *)
+Definition run_C01_init (from_seq : bool) (sdata : str) (sid : option str) (sty : option str) (shdr : option str)
+                        (id : option str) (meta : option (option (option str))) (ty : option str) : val :=
+  let src := if from_seq
+             then bind (bioseq_init (DStr sdata) sid None sty)
+                       (fun b => Ok (DSeq (match shdr with Some h => set_header h b | None => b end)))
+             else Ok (DStr sdata) in
+  VL [VB (forallb is_print_or_tab sdata);
+      show_res (bind src (fun d => bind (bioseq_init d id meta ty) (fun b => Ok (show_seq b))))].
